@@ -53,6 +53,10 @@ TABLE: List[Entry] = [
     ("R-MARKER", None, "marker-on-error-path", {"C11", "C19"}),
     ("R-MARKER", None, None, {"C11"}),
     ("R-KEEPBEST", None, None, {"C03", "C11"}),
+    # joining a worker that may still be writing into a queue nobody reads deadlocks healthy runs too ("the call returns once every worker
+    # has finished", C11); the other liveness clauses only matter when a worker dies (C18)
+    ("R-LIVENESS", None, "unbounded-join", {"C11", "C18"}),
+    ("R-LIVENESS", None, None, {"C18"}),
     ("R-STATS-MAP", "BacktrackSolver", None, {"C17"}),
     ("R-STATS-MAP", "MultiprocessingSolver", None, {"C11", "C17"}),
     ("R-STATS-MAP", None, "aggregator", {"C11", "C17"}),
@@ -84,6 +88,7 @@ TABLE: List[Entry] = [
     ("R-INIT-COHERENCE", None, "not-reassigned", {"C13", "C15"}),
     ("R-INIT-COHERENCE", None, "not-fresh", {"C13", "C15"}),
     ("R-INIT-COHERENCE", None, "accumulates", {"C13", "C15"}),
+    ("R-INIT-COHERENCE", None, "sort-guard-stale", {"C15"}),  # the order changes the schedule (statistics), not the solution set
     ("R-INIT-COHERENCE", None, "sort-", {"C13", "C15"}),
     ("R-INIT-COHERENCE", None, "missing", {"C13", "C15"}),
     ("R-INIT-COHERENCE", None, "triggers-shape", {"C13", "C15"}),  # a table accumulated with |= over uninitialised memory depends on the history of the process
@@ -125,6 +130,9 @@ TABLE: List[Entry] = [
     ("R-SWALLOWED-RAISE", "cp_", "raise:DOM_HEURISTIC", {"C04", "C15", "C19"}),
     ("R-SWALLOWED-RAISE", "cp_", None, {"C15", "C19"}),
     ("R-SWALLOWED-RAISE", None, None, {"C15"}),
+    # where the function addresses are taken: per call, in the process that uses them (C11: every start method; C15: no state kept across calls)
+    ("R-DISPATCH", None, "address-params", {"C11", "C15"}),
+    ("R-DISPATCH", None, None, {"C15"}),
     # ---- capacity ------------------------------------------------------------------------------------------
     ("R-CAPACITY", None, "push-unreported", {"C19"}),
     ("R-CAPACITY", None, None, {"C16", "C19", "C10"}),
